@@ -1,5 +1,6 @@
 import Rie.Proofs.Sys
 import Rie.Proofs.SysIds
+import Rie.Proofs.SysResv
 import Rie.Props.RoutesTable
 
 /-!
@@ -145,5 +146,50 @@ theorem C02_unissued_id_refused_run (s0 : State) (h0 : known s0 = []) (ops : Lis
       have : r.k = k := by simpa using hc.symm
       simp [mem_known, hr, this]
   exact absurd (i k hmem) (Nat.not_lt.mpr hk)
+
+/-- **The invocation in flight carries the newest id; every older id is refused — whole runs.** After ANY
+    sequence of ops from a freshly started emulator (any scheduler choices), while an invocation is in flight
+    every invocation number the emulator still holds anywhere — in the queue of handler requests, in the
+    running handler, in the renderer (the event a slow runtime may still fetch or answer after a reset) — is
+    at most the reservation's number while an invocation is in flight (`KInv` of `SysIds` + `RInv` of
+    `SysResv`: held numbers are below the counter and the reservation has the counter minus one), and one
+    that is not the reservation's own — an older invocation's, or any held number when nothing is in
+    flight — is refused with 400 on a response or error and changes nothing. So an event rendered for an
+    earlier invocation can never be answered into a later one, however the two overlapped. (In the model
+    as it stands a reset also empties the renderer, so at quiescence the "older id under a newer
+    reservation" case may not arise at all; the theorem does not depend on that.) -/
+theorem C02_older_ids_refused_run (s0 : State) (h0 : known s0 = []) (ops : List (Nat × Op)) (size : Nat) (h : String) (bad : Bool) :
+    let s := (run s0 [] ops).1
+    ∀ k, k ∈ known s →
+      (∀ r, s.resv = some r → k ≤ r.k) ∧
+      (currentId s ≠ some k →
+        rtResponse s (some k) size h bad = reply s "rt" "response" "400,InvalidRequestID" ∧
+        ∀ et, rtError s (some k) et = reply s "rt" "error" "400,InvalidRequestID") := by
+  intro s k hk
+  have i0 : KInv s0 := by intro k hk; rw [h0] at hk; cases hk
+  have r0 : RInv s0 := by
+    intro r hr
+    have : r.k ∈ known s0 := by simp [mem_known, hr]
+    rw [h0] at this; cases this
+  have i := kinv_run s0 [] ops i0 k hk
+  refine ⟨fun r hr => ?_, fun hne => ?_⟩
+  · have j := rinv_run s0 [] ops r0 r hr
+    omega
+  · apply C02_wrong_id_inert
+    right
+    exact fun hc => hne hc.symm
+
+-- non-vacuity, both parts. (1) After a completed invocation the renderer still holds its number 1 and there
+-- is no reservation: a late second response under that id is refused and changes nothing. (2) With the next
+-- invocation admitted, everything held is the reservation's own number 2.
+example :
+    let ops : List (Nat × Op) := [(0, .invoke 0 1 "a"), (0, .rtNext), (0, .rtResponse (some 1) 1 "x" false), (0, .rtNext)]
+    let s := (run {} [] ops).1
+    (s.resv.map (·.k), known s) = (none, [1]) ∧
+    rtResponse s (some 1) 1 "y" false = reply s "rt" "response" "400,InvalidRequestID" ∧
+    let s2 := (run {} [] (ops ++ [(0, .invoke 1 1 "b")])).1
+    (s2.resv.map (·.k), known s2) = (some 2, [2, 2, 2]) := by
+  refine ⟨by decide +kernel, ?_, by decide +kernel⟩
+  exact (C02_older_ids_refused_run {} rfl _ 1 "y" false 1 (by decide +kernel)).2 (by decide +kernel) |>.1
 
 end Rie.Props.C02
